@@ -60,3 +60,9 @@ def run(ctx):
         st = SC.run_family(ctx, fam, 3, 2)
         SC.run_derived(ctx, fam, 3, st)
     ctx.floor("S4", 8)
+    from ..engines import dispatch as DP4
+    DP4.d5b_flag_properties_forward_their_own_flag(ctx)
+    ctx.floor("D5", 3)
+    from ..engines import statepickle as R4
+    R4.r10_one_searcher_per_database(ctx)
+    ctx.floor("R10", 1)
